@@ -1693,6 +1693,91 @@ Proof.
   - reflexivity.
 Qed.
 
+(** The same for the default delimiter kept in the text ([scan_closed_semi]): the command may end
+    in white space (the newline that ends a trailing line comment). *)
+Lemma ltrimmed_inv cmd : ltrimmed cmd = true -> cmd <> [] /\ starts_space cmd = false.
+Proof.
+  unfold ltrimmed. destruct cmd as [|a c]; [discriminate|]. intros H. apply bytes_eqb_eq in H.
+  split; [discriminate|]. destruct (trim_left_decomp (a :: c)) as (sp & _ & _ & H3). rewrite H in H3. exact H3.
+Qed.
+
+Lemma trim_space_semi_l c : starts_space c = false -> c <> [] -> trim_space (c ++ [59%N]) = c ++ [59%N].
+Proof.
+  intros Hs Hne.
+  unfold trim_space. rewrite (trim_left_id (c ++ [59%N])) by (apply starts_space_app_ascii; auto; lia).
+  unfold trim_right_space. rewrite rev_app_distr. cbn [rev app].
+  rewrite trim_left_space_rev_59. cbn [rev]. rewrite rev_involutive. reflexivity.
+Qed.
+
+Lemma scan_closed_semi_of_closed o cmd :
+  OmitDelimiter o = false -> scan_closed o delimiter cmd = true -> scan_closed_semi o cmd = true.
+Proof.
+  intros Ho H. unfold scan_closed in H. apply andb_true_iff in H as [Ht Hc].
+  unfold scan_closed_semi. rewrite Ho, Hc. cbn [negb andb]. rewrite andb_true_r.
+  destruct (trimmed_inv cmd Ht) as [Hne Hts]. destruct (trim_space_fix cmd Hts) as [Hss _].
+  unfold ltrimmed. destruct cmd as [|a c]; [congruence|]. rewrite (trim_left_id _ Hss). apply bytes_eqb_refl.
+Qed.
+
+Theorem stmt_gap_closed_semi o g cmd tail s f :
+  GoCommand o = false ->
+  scan_closed_semi o cmd = true -> Gap delimiter g ->
+  input s = g ++ cmd ++ delimiter ++ [10%N] ++ tail -> pos s = 0 -> delim s = delimiter -> endterm s = false ->
+  (length g + length cmd + length delimiter + 4 <= f)%nat ->
+  exists s' cs,
+    stmt o f s = Ok (s', Some (mkStmt (total s + zlen g) (cmd ++ delimiter) cs)) /\
+    input s' = 10%N :: tail /\ pos s' = 0 /\ delim s' = delimiter /\ endterm s' = false /\
+    total s' = total s + zlen g + zlen cmd + zlen delimiter /\ src s' = src s /\ comments s' = [].
+Proof.
+  intros Hgo Hsc HG I P Dl Et Hf.
+  assert (Hdok : delim_ok delimiter = true) by reflexivity.
+  assert (Hgd : gap_delim_ok delimiter) by (intros H; discriminate H).
+  set (d := delimiter) in *.
+  unfold scan_closed_semi in Hsc. apply andb_true_iff in Hsc as [Hsc Hcw]. apply andb_true_iff in Hsc as [Hom Htr].
+  apply negb_true_iff in Hom.
+  destruct (ltrimmed_inv cmd Htr) as [Hne Hss].
+  destruct (delim_ok_inv d Hdok) as [Hasc (d0 & d' & Hd & _)].
+  set (X := cmd ++ d ++ [10%N] ++ tail) in *.
+  assert (starts_space X = false) as HX.
+  { unfold X. rewrite Hd. cbn [app]. apply starts_space_app_ascii; auto.
+    apply Hasc. rewrite Hd. left. reflexivity. }
+  destruct f as [|f']; [slia|].
+  change (stmt o (S f') s) with (stmt_loop o (stmt o f') f' (skipSpaces s) 0 0).
+  destruct (gap_loop o (stmt o f') d X Hgo HX g (Gap_GapS d g Hgd HG) (skipSpaces s) 0 f')
+    as (s0 & F0 & I0 & P0 & D0 & E0 & S0 & T0 & HF0 & Hloop).
+  { simpl. rewrite I. reflexivity. }
+  { exact P. }
+  { exact Dl. }
+  { slia. }
+  rewrite Hloop.
+  assert (total s0 = total s + zlen g) as T0'.
+  { simpl in T0. rewrite I, zlen_app in T0. slia. }
+  assert (At d tail (total s0) (src s) s0 [] (cmd ++ d ++ [10%N])) as HA0.
+  { unfold At. splits; auto.
+    - rewrite I0. unfold X. cbn [app]. rewrite <- !app_assoc. reflexivity.
+    - rewrite zlen_nil. slia.
+    - rewrite E0. exact Et. }
+  unfold follow in Hcw.
+  destruct (cw_sim_plain o d tail (total s0) (src s) (stmt o f') Hgo Hdok _ _ _ _ _ _ Hcw
+              cmd [] s0 0 F0 eq_refl eq_refl HA0) as (s1 & HA1 & Hrun).
+  { left. auto. }
+  { exact Hne. }
+  { slia. }
+  change (Z.of_nat 0) with 0 in Hrun. rewrite Hrun. cbn [app] in *.
+  destruct HA1 as (I1 & P1 & T1 & D1 & E1 & S1).
+  unfold emit. rewrite I1, slice_from_app by exact P1. cbn [bind snd fst].
+  eexists. eexists. split; [|splits].
+  - rewrite D1, Hom. subst d. rewrite bytes_eqb_refl. cbn [negb orb].
+    change delimiter with [59%N] in *. rewrite (trim_space_semi_l cmd Hss Hne).
+    replace (total s1 - zlen (cmd ++ [59%N])) with (total s + zlen g) by slia. reflexivity.
+  - reflexivity.
+  - reflexivity.
+  - exact D1.
+  - exact E1.
+  - simpl. rewrite T1, zlen_app. slia.
+  - exact S1.
+  - reflexivity.
+Qed.
+
 (** A gap with nothing after it: end of file. *)
 Theorem stmt_gap_eof o d g s f :
   GoCommand o = false -> delim_ok d = true -> gap_delim_ok d -> Gap d g ->
